@@ -195,7 +195,7 @@ def index_of(pd, kind, n, seed):
     raise ValueError(kind)
 
 
-REP_NEEDS = {"float32": "f32", "int64": "int", "int32": "int", "int-list": "int", "frame-f32": "f32",
+REP_NEEDS = {"float16": "f16", "float32": "f32", "int64": "int", "int32": "int", "int-list": "int", "frame-f32": "f32",
              "frame-int": "int", "np.float32": "f32", "np.int64": "int", "int": "int"}
 
 
@@ -203,6 +203,8 @@ def fit_values(vals, needs):
     """the nearest values that the representation holds exactly (float32 / integer storage)"""
     if needs == "f32":
         return [float(np.float32(v)) for v in vals]
+    if needs == "f16":
+        return [float(np.float16(max(-60000.0, min(60000.0, v)))) if isfin(v) else v for v in vals]
     if needs == "int":
         return [float(max(-2 ** 31 + 1, min(2 ** 31 - 1, round(v)))) if isfin(v) else 0.0 for v in vals]
     return [float(v) for v in vals]
@@ -224,6 +226,8 @@ def vec_rep(pd, name, v, seed=0):
         return [int(x) for x in v]
     if name == "float32":
         return a.astype(np.float32)
+    if name == "float16":
+        return a.astype(np.float16)
     if name == "int64":
         return a.astype(np.int64)
     if name == "int32":
@@ -717,7 +721,7 @@ def run(ctx):
 
     # ------------------------------------------------------------------ lhs
     def bounds_rep(name, v, seed):
-        if name in ("float", "int", "np.float64", "np.int64", "0d"):     # one parameter: a number
+        if name in ("float", "int", "np.float64", "np.float32", "np.int64", "0d"):     # one parameter: a number
             return scalar_rep(name, v[0])
         return vec_rep(pd, name, v, seed)
 
@@ -848,38 +852,56 @@ def run(ctx):
     # the same ranges held in other ways: lists / tuples of floats or integers, integer and float32 arrays (bounds
     # those types hold exactly), big-endian, strided / reversed views, read-only, Series with any index, plain
     # numbers for one parameter, the size as a numpy integer; one upper bound given for equal upper bounds.
-    # float32 UPPER bounds are left out: on the pinned code pmax is not converted to float64 (pmin is), so
-    # `pmax[i]-du/2` is evaluated in float32 and e.g. lhs(100, [1e6], np.float32([1e6+1])) puts samples above
-    # pmax and leaves the top stratum empty - reported as a finding of the hardening round, not asserted here.
-    LHS_REPS = ["list", "tuple", "int-list", "int64", "int32", "big-endian", "strided", "reversed", "readonly",
-                "series:shuffled", "series:dates", "series:text"]
+    # Single and half precision bounds, lower AND upper: the pinned code converted only the lower bounds to
+    # float64, `pmax[i]-du/2` was then evaluated in the precision of pmax and lhs(100, [1e6], np.float32([1e6+1]))
+    # put samples above pmax and left strata empty (C20/lhs/stratum-count, fixed: known_findings.d/C20.json).  The
+    # ranges include bounds far from zero with a width near the spacing of the type, where that defect shows.
+    LHS_REPS = ["list", "tuple", "int-list", "int64", "int32", "float32", "float32", "float16", "big-endian", "strided",
+                "reversed", "readonly", "series:shuffled", "series:dates", "series:text"]
     for it in range(ctx.scale(4, 16) * len(LHS_REPS)):
         r0 = LHS_REPS[it % len(LHS_REPS)]
         r1 = r0 if rng.random() < 0.5 else rng.choice(LHS_REPS)
-        if rng.random() < 0.15:
-            r0 = "float32"
-        n = rng.choice([1, 2, 3, 10, rng.randint(1, 40)])
+        if rng.random() < 0.3:      # the two bounds held differently
+            r0 = rng.choice(LHS_REPS)
+        n = rng.choice([1, 2, 3, 10, rng.randint(1, 40), rng.randint(10, 100)])
         npar = rng.randint(1, 4)
         bc = rng.random() < 0.15
-        if npar == 1 and rng.random() < 0.5:
-            r0, r1 = rng.choice(["float", "int", "np.float64", "np.int64", "0d"]), rng.choice(["float", "int", "0d"])
-        anyint = "int" in (REP_NEEDS.get(r0), REP_NEEDS.get(r1))
+        if npar == 1 and rng.random() < 0.4:
+            r0 = rng.choice(["float", "int", "np.float64", "np.float32", "np.int64", "0d"])
+            r1 = rng.choice(["float", "int", "np.float32", "0d"])
+        needs = (REP_NEEDS.get(r0), REP_NEEDS.get(r1))
+        anyint = "int" in needs
+        far = 1000.0 if "f16" in needs else 1e6      # far from zero: the spacing of the type is near the width
         pmin, pmax = [], []
         for _ in range(npar):
-            loc = rng.choice([0.0, -1.0, rng.gauss(0, 1), rng.gauss(0, 1e3), float(rng.randint(-50, 50))])
+            loc = rng.choice([0.0, -1.0, rng.gauss(0, 1), rng.gauss(0, 1e3), float(rng.randint(-50, 50)),
+                              float(rng.randint(-int(far), int(far))), far])
             w = rng.choice([1.0, 2.0, 10 ** rng.uniform(-2, 4), rng.uniform(0.01, 100)])
             if anyint:
                 loc, w = float(round(loc)), float(max(1, round(w)))
             pmin.append(float(loc))
             pmax.append(float(loc + w))
-        pmin = fit_values(pmin, REP_NEEDS.get(r0))
+        pmin = fit_values(pmin, needs[0])
         if bc:
             top = max(pmin) + rng.choice([1.0, 3.0, float(rng.randint(1, 1000))])
             pmax = [top] * npar
-        if any(b <= a for a, b in zip(pmin, pmax)):
+        pmax = fit_values(pmax, needs[1])
+        if any(b <= a or not isfin(a) or not isfin(b) for a, b in zip(pmin, pmax)):
             continue
         do_lhs(n, pmin, pmax, (r0, r1), rng.randrange(10 ** 6),
                rng.choice(["int", "int", "np.int64", "np.int32"]), bc)
+    # ... and ranges a few spacings of the storage type wide: integer bounds in [2^e, 2^(e+1)) held in single
+    # (e = 14..22) or half (e = 7..10) precision, 10..100 samples - half a stratum is then below the spacing
+    for it in range(ctx.scale(12, 60)):
+        half = it % 3 == 2
+        e = rng.randint(7, 10) if half else rng.randint(14, 22)
+        npar = rng.choice([1, 1, 2, 3])
+        pmin = [float(rng.randint(2 ** e, 2 ** (e + 1) - 10)) * rng.choice([1, 1, -1]) for _ in range(npar)]
+        pmax = [a + float(rng.choice([1, 1, 2, 3, 8])) for a in pmin]
+        tname = "float16" if half else "float32"
+        r1 = tname if npar > 1 or half or rng.random() < 0.6 else "np.float32"
+        r0 = rng.choice([tname, "list", "ndarray", "int64"]) if r1 != "np.float32" else rng.choice(["np.float32", "float"])
+        do_lhs(rng.randint(10, 100), pmin, pmax, (r0, r1), rng.randrange(10 ** 6), "int", False)
 
     # ------------------------------------------------------------------ pareto_front
     def o_dominated(data, o):
